@@ -16,11 +16,11 @@ package page
 //@   modifies nothing
 
 //@ func [C11,C18] ParsePage
-//@   ensures [C11] 0 <= result && result <= 99999
+//@   ensures [C11,C18] 0 <= result && result <= 99999
 //@   modifies nothing
 
 //@ func [C11,C18] ParseSize
-//@   ensures [C11] 1 <= result && result <= 9999
+//@   ensures [C11,C18] 1 <= result && result <= 9999
 //@   modifies nothing
 
 // helpers are called with clamped page/size (ParsePage/ParseSize) and a slice length
